@@ -105,6 +105,7 @@ Hypothesis Hnd : nth_error wf n = Some nd.
 Hypothesis FL : fields_lt wf.
 Definition se' : sentry := spec_entry wf stab n nd.
 Hypothesis NW : node_wf n se' nd = true.
+Hypothesis ZL : zip_ok_node nd = true.
 Definition U : list nat := ups stab (n_fields nd).
 
 Definition cur : list key := map (fun f => (n, f)) (n_split nd).
@@ -113,12 +114,13 @@ Definition cur : list key := map (fun f => (n, f)) (n_split nd).
 Lemma nw_parts :
   (forall j, In (BUp j) (n_fields nd) -> j < n) /\ NoDup cur /\
   (forall f b, nth_error (n_fields nd) f = Some b ->
-               match b with BSplit _ => In f (n_split nd) | _ => ~ In f (n_split nd) end) /\
+               match b with BSplit _ => In (leader_of nd f) (n_split nd) | _ => ~ In f (n_split nd) end) /\
   (forall f, In f (n_split nd) -> f < List.length (n_fields nd)) /\
   NoDup (n_comb nd) /\ incl (n_comb nd) (s_axes se').
 Proof.
   pose proof NW as W. unfold node_wf in W.
   apply andb_true_iff in W. destruct W as [W W6]. apply andb_true_iff in W. destruct W as [W W5].
+  apply andb_true_iff in W. destruct W as [W W7].
   apply andb_true_iff in W. destruct W as [W W4]. apply andb_true_iff in W. destruct W as [W W3].
   apply andb_true_iff in W. destruct W as [W1 W2].
   repeat split.
@@ -129,6 +131,23 @@ Proof.
   - intros f Hf. rewrite forallb_forall in W4. specialize (W4 f Hf). apply Nat.ltb_lt in W4. exact W4.
   - apply nodupk_NoDup. exact W5.
   - intros k Hk. rewrite forallb_forall in W6. apply memk_In. apply W6. exact Hk.
+Qed.
+(* only split fields are zipped: every other field is its own "leader"; zipped fields are as long as their leader *)
+Lemma leader_self f b : nth_error (n_fields nd) f = Some b -> (forall vs, b <> BSplit vs) -> leader_of nd f = f.
+Proof.
+  intros Hb Hnb. unfold leader_of. destruct (find (fun p => Nat.eqb (fst p) f) (n_zip nd)) as [p|] eqn:E; [|reflexivity].
+  apply find_some in E. destruct E as [Hin E]. apply Nat.eqb_eq in E.
+  pose proof NW as W. unfold node_wf in W.
+  apply andb_true_iff in W. destruct W as [W _]. apply andb_true_iff in W. destruct W as [W _].
+  apply andb_true_iff in W. destruct W as [_ W7]. rewrite forallb_forall in W7. specialize (W7 p Hin).
+  rewrite E, Hb in W7. destruct b; try discriminate W7. exfalso. eapply Hnb. reflexivity.
+Qed.
+Lemma leader_flen f : flen nd (leader_of nd f) = flen nd f.
+Proof.
+  unfold leader_of. destruct (find (fun p => Nat.eqb (fst p) f) (n_zip nd)) as [p|] eqn:E; [|reflexivity].
+  apply find_some in E. destruct E as [Hin E]. apply Nat.eqb_eq in E.
+  pose proof ZL as Z. unfold zip_ok_node in Z. rewrite forallb_forall in Z. specialize (Z p Hin).
+  apply Nat.eqb_eq in Z. rewrite <- E. symmetry. exact Z.
 Qed.
 
 Lemma n_lt_wf : n < List.length wf.
@@ -334,21 +353,21 @@ Proof.
   - unfold cur in H. apply in_map_iff in H. destruct H as [f' [E Hf']]. inversion E; subst. contradiction.
 Qed.
 
-Lemma key_len_own f vs : nth_error (n_fields nd) f = Some (BSplit vs) -> key_len wf (n, f) = List.length vs.
-Proof. intros H. unfold key_len, split_list. cbn [fst snd]. rewrite Hnd, H. reflexivity. Qed.
+Lemma key_len_flen f : key_len wf (n, f) = flen nd f.
+Proof. unfold key_len, split_list, flen. cbn [fst snd]. rewrite Hnd. destruct (nth_error (n_fields nd) f) as [[z|vs|j]|]; reflexivity. Qed.
 
 Definition sem_arg (f : nat) (b : binding) : val :=
   match b with
   | BConst z => VInt z
-  | BSplit vs => VInt (nth (match lookup rho (n, f) with Some i => i | None => 0 end) vs 0%Z)
-  | BUp j => s_out_of stab j rho
+  | BSplit vs => VInt (nth (match lookup rho (n, leader_of nd f) with Some i => i | None => 0 end) vs 0%Z)
+  | BUp j => outsel (osel_of nd f) (s_out_of stab j rho)
   end.
 
 Lemma field_ok f b : nth_error (n_fields nd) f = Some b ->
-  (match lookup (mkdict K (a_st ++ o)) (n, f), b with
+  (match lookup (mkdict K (a_st ++ o)) (n, leader_of nd f), b with
    | Some i, BSplit vs => option_map VInt (nth_error vs i)
    | Some i, _ => None
-   | None, BUp j => get_value_of mtab j (lookup (mkdict (keys_prev n other' P ++ cur) (a_in ++ o)) (n, f))
+   | None, BUp j => option_map (outsel (osel_of nd f)) (get_value_of mtab j (lookup (mkdict (keys_prev n other' P ++ cur) (a_in ++ o)) (n, f)))
    | None, BConst z => Some (VInt z)
    | None, BSplit _ => None
    end) = Some (sem_arg f b).
@@ -356,10 +375,14 @@ Proof.
   intros Hb. rewrite (mkdict_nodup _ _ K_nodup). fold rho.
   pose proof (proj1 (proj2 (proj2 nw_parts)) f b Hb) as Hkind.
   destruct b as [z|vs|x].
-  - rewrite (rho_not_own f Hkind). reflexivity.
-  - destruct (rho_own f Hkind) as [i [Hi Hlt]]. rewrite Hi. cbn [sem_arg]. rewrite Hi.
-    rewrite (key_len_own f vs Hb) in Hlt. rewrite (nth_error_nth' vs 0%Z Hlt). reflexivity.
-  - rewrite (rho_not_own f Hkind). cbn [sem_arg].
+  - rewrite (leader_self f _ Hb) by (intros vs; discriminate). rewrite (rho_not_own f Hkind). reflexivity.
+  - destruct (rho_own _ Hkind) as [i [Hi Hlt]]. rewrite Hi. cbn [sem_arg]. rewrite Hi.
+    rewrite key_len_flen, leader_flen in Hlt.
+    assert (EL : flen nd f = List.length vs) by (unfold flen; rewrite Hb; reflexivity).
+    rewrite EL in Hlt. rewrite (nth_error_nth' vs 0%Z Hlt). reflexivity.
+  - rewrite (leader_self f _ Hb) by (intros vs; discriminate). rewrite (rho_not_own f Hkind). cbn [sem_arg].
+    cut (get_value_of mtab x (lookup (mkdict (keys_prev n other' P ++ cur) (a_in ++ o)) (n, f)) = Some (s_out_of stab x rho));
+      [intros G; rewrite G; reflexivity|].
     assert (Hin : In (BUp x) (n_fields nd)) by (eapply nth_error_In; exact Hb).
     assert (Hlt : x < n) by (apply (proj1 nw_parts); exact Hin).
     destruct (entry_at x Hlt) as [ndx [mex [sex [E1 [E2 [E3 EO]]]]]].
@@ -406,8 +429,8 @@ Lemma job_args_ok a_in a_st o :
   sel cf indf' P a_in a_st -> In o curbox ->
   forall fields' f0,
   (forall i b, nth_error fields' i = Some b -> nth_error (n_fields nd) (f0 + i) = Some b) ->
-  all_some (job_args wf mtab n f0 fields' (mkdict (keys_prev n other' P ++ cur) (a_in ++ o)) (mkdict K (a_st ++ o)))
-  = Some (sem_args stab n f0 fields' (rho a_st o)).
+  all_some (job_args wf mtab n nd f0 fields' (mkdict (keys_prev n other' P ++ cur) (a_in ++ o)) (mkdict K (a_st ++ o)))
+  = Some (sem_args stab n nd f0 fields' (rho a_st o)).
 Proof.
   intros HS Ho. induction fields' as [|b fields' IH]; intros f0 H; [reflexivity|].
   cbn [job_args sem_args all_some].
@@ -457,7 +480,7 @@ Proof.
 Qed.
 Lemma sem_args_ext r1 r2 : agree K r1 r2 = true ->
   forall fields' f0, (forall i b, nth_error fields' i = Some b -> nth_error (n_fields nd) (f0 + i) = Some b) ->
-  sem_args stab n f0 fields' r1 = sem_args stab n f0 fields' r2.
+  sem_args stab n nd f0 fields' r1 = sem_args stab n nd f0 fields' r2.
 Proof.
   intros HA. rewrite agree_iff in HA.
   induction fields' as [|b fields' IH]; intros f0 H; [reflexivity|]. cbn [sem_args].
@@ -465,8 +488,9 @@ Proof.
   rewrite IH by (intros i b' Hi; specialize (H (S i) b' Hi); rewrite <- Nat.add_succ_comm in H; exact H).
   f_equal. destruct b as [z|vs|x]; [reflexivity| |].
   - pose proof (proj1 (proj2 (proj2 nw_parts)) f0 _ Hb) as Hk. cbn in Hk.
-    rewrite (HA (n, f0)); [reflexivity|]. unfold K. apply in_or_app. right. unfold cur. apply in_map. exact Hk.
-  - assert (Hin : In (BUp x) (n_fields nd)) by (eapply nth_error_In; exact Hb).
+    rewrite (HA (n, leader_of nd f0)); [reflexivity|]. unfold K. apply in_or_app. right. unfold cur. apply in_map. exact Hk.
+  - f_equal.
+    assert (Hin : In (BUp x) (n_fields nd)) by (eapply nth_error_In; exact Hb).
     assert (Hlt : x < n) by (apply (proj1 nw_parts); exact Hin).
     destruct (entry_at x Hlt) as [ndx [mex [sex [E1 [E2 [E3 EO]]]]]].
     unfold s_out_of. rewrite E3. apply (eo_out_ext wf _ _ _ _ _ EO). apply agree_iff. intros k Hk.
@@ -551,21 +575,13 @@ Proof.
     assert (Ho : In [] curbox) by (unfold curbox; rewrite Ecur; left; reflexivity).
     exists (MStateless (s_sem se' [])). split.
     + unfold resolve_all.
-      assert (G : forall fields' f0, (forall i b, nth_error fields' i = Some b -> nth_error (n_fields nd) (f0 + i) = Some b) ->
-        all_some (map (fun b => match b with BConst z => Some (VInt z) | BSplit _ => None | BUp j => get_value_of mtab j None end) fields')
-        = Some (sem_args stab n f0 fields' [])).
-      { induction fields' as [|b fields' IH]; intros f0 H; [reflexivity|]. cbn [map all_some sem_args].
-        pose proof (H 0 b eq_refl) as Hb. rewrite Nat.add_0_r in Hb.
-        pose proof (field_ok [] [] [] HS Ho f0 b Hb) as FO. cbn [app] in FO.
-        rewrite EK, EP, Ecur in FO. cbn in FO.
-        rewrite (IH (S f0)) by (intros i b' Hi; specialize (H (S i) b' Hi); rewrite <- Nat.add_succ_comm in H; exact H).
-        unfold sem_arg, rho in FO. rewrite EK in FO. cbn in FO.
-        destruct b as [z|vs|x]; [reflexivity | discriminate FO | rewrite FO; reflexivity]. }
-      rewrite (G (n_fields nd) 0) by (intros i b Hi; exact Hi). reflexivity.
+      pose proof (job_args_ok [] [] [] HS Ho (n_fields nd) 0 (fun i b Hi => Hi)) as G.
+      unfold rho in G. rewrite EK, EP, Ecur in G. cbn [app flat_map keys_prev mkdict mkdict_from combine] in G.
+      rewrite G. reflexivity.
     + apply new_entry_common; [reflexivity | intros H; contradiction].
   - assert (HK : K <> []).
     { intros E. apply K_nil_iff in E. destruct E as [E1 [E2 E3]]. rewrite E1, E2, E3 in EC. discriminate EC. }
-    rewrite HPc. unfold build_state.
+    rewrite HPc. unfold build_state. rewrite ZL. cbn [negb].
     assert (EP : flat_map (ent_rpnf mtab) P = flat_map (F stab) P).
     { apply flat_map_ext_in. intros x Hx. apply ent_rpnf_eq. apply HPu in Hx. apply ups_in in Hx. apply (proj1 nw_parts). tauto. }
     assert (EKf : flat_map (ent_keysf mtab) P = flat_map (F stab) P).
